@@ -225,11 +225,13 @@ class Spec:
 
     def all_chains(self):
         """[(rule id, def index, atoms, constraints, signers)] - temporary rules: each definition is its own rule"""
-        res = []
-        for idx, r in enumerate(self.rules):
-            for atoms, cons, sign in self.chains_of_def(idx):
-                res.append((r['id'], idx, atoms, cons, sign))
-        return res
+        if getattr(self, '_all', None) is None:
+            res = []
+            for idx, r in enumerate(self.rules):
+                for atoms, cons, sign in self.chains_of_def(idx):
+                    res.append((r['id'], idx, atoms, cons, sign))
+            self._all = res
+        return self._all
 
     # -- matching -----------------------------------------------------------------------------------
     def _opt_holds(self, o, c, ctx):
@@ -528,6 +530,20 @@ def gen_schema(rng, signing=True, size=None):
             higher = [q for q in ids if q in length and rank[q] > rank.get(base, 0)]
             if higher and rng.random() < 0.6:
                 r['sign'] = sorted(set(rng.sample(higher, min(len(higher), rng.choice([1, 1, 2])))))
+    # motif: packet rule and key rule share a named pattern that the key rule constrains
+    if signing and rng.random() < 0.35:
+        x = rng.choice(named)
+        opts = [gen_opt(rng, named, lits) for _ in range(rng.choice([1, 2]))]
+        key_name = [['lit', rng.choice(lits)], ['pat', x]]
+        if rng.random() < 0.3:
+            key_name.append(['pat', rng.choice(TEMPS + named)])
+        pkt_name = [['lit', rng.choice(lits)], ['pat', x]]
+        if rng.random() < 0.4:
+            pkt_name.insert(rng.randrange(3), ['pat', rng.choice(named)])
+        rules.append({'id': '#s2', 'name': key_name, 'cons': [[{'pat': x, 'opts': opts}]], 'sign': []})
+        rules.append({'id': '#s1', 'name': pkt_name, 'cons': [], 'sign': ['#s2'] + (['#s3'] if rng.random() < 0.3 else [])})
+        if '#s3' in rules[-1]['sign']:
+            rules.append({'id': '#s3', 'name': [['pat', x], ['lit', rng.choice(lits)]], 'cons': [], 'sign': []})
     # motif: a rule with a constrained temporary (or named) pattern referred to twice in one name
     if rng.random() < 0.3:
         pat = rng.choice(TEMPS + TEMPS + named[:1])
